@@ -100,4 +100,34 @@ theorem C19_bad_oid_reported (s : String) (hne : s.isEmpty = false) (hbad : oidF
   unfold V1.optOid
   simp [hne, hbad]
 
+/-- what the manipulations of the to-be-signed part do to a body, field by field -/
+def applyTbsManip (m : Config.Manipulations) (t : Tbs) : Tbs :=
+  let spki1 : Spki := match m.tbsPublicKeyAlgorithm with | some a => { t.spki with alg := ⟨a, none⟩ } | none => t.spki
+  let spki2 : Spki := match m.tbsPublicKey with | some b => { spki1 with bits := ⟨b, 8 * b.length⟩ } | none => spki1
+  { t with version := m.version.getD t.version,
+           sigAlg := match m.tbsSignature with | some a => some ⟨a, none⟩ | none => t.sigAlg,
+           spki := spki2 }
+
+/-- **decomposition, for every subset of the manipulation keys at once**: the body built from a configuration
+    with manipulations is the body built from the same configuration *without* them, with exactly the named
+    fields set to exactly the given values (`applyTbsManip`); serial, names, validity, unique ids, key material
+    and extension builders are those of the unmanipulated configuration.  The two outer manipulations do not
+    occur in `applyTbsManip` at all. -/
+theorem C19_decomposition (c : V1.CertificateContent) (prk : Option PrivKey) (req : Option Spki) (o : Oracle) :
+    buildCertBody c prk req o =
+      (buildCertBody { c with manipulations := {} } prk req o).map fun ctx =>
+        { ctx with tbs := applyTbsManip c.manipulations ctx.tbs } := by
+  unfold buildCertBody
+  cases hb : c.extensions.mapM V1.Ext.builder with
+  | error e => rfl
+  | ok bs =>
+    simp only [Except.map]
+    congr 1
+    simp only [applyTbsManip, Context.mk.injEq, Tbs.mk.injEq, and_true, true_and]
+    cases hv : c.manipulations.version <;> cases hs : c.manipulations.tbsSignature <;>
+      cases ha : c.manipulations.tbsPublicKeyAlgorithm <;> cases hk : c.manipulations.tbsPublicKey <;> simp
+
+/-- non-vacuity / reading aid: with the empty manipulation block nothing is changed -/
+theorem applyTbsManip_empty (t : Tbs) : applyTbsManip {} t = t := rfl
+
 end C19
